@@ -481,6 +481,7 @@ func failedStageLeakCase(col *Collector, variant int) {
 
 func runC08(col *Collector, tier string, seed int64) {
 	withEnvCase(col)
+	derivedVarsCases(col, "c08-leak")
 	for v := 0; v < 3; v++ {
 		failedStageLeakCase(col, v)
 	}
